@@ -43,6 +43,17 @@ def run_case(case, root, cap=90.0):
         fh.write(data)
     before = set(threading.enumerate())
     b = sftpbench.Bench(os.path.join(root, "srv"), si_cls=sftpfaults.FaultyServer, si_kwargs=dict(script=script))
+    # observe which status codes the client actually looks at
+    seen_codes = []
+    real_cs = b.client._convert_status
+
+    def cs(msg):
+        rem = msg.get_remainder()
+        if len(rem) >= 4:
+            seen_codes.append(int.from_bytes(rem[:4], "big"))
+        return real_cs(msg)
+
+    b.client._convert_status = cs
     cb_calls = []
     cb = (lambda done, total: cb_calls.append((done, total))) if case.get("callback") else None
     box = dict(done=False, exc=None, ret=None, sink=None)
@@ -103,6 +114,7 @@ def run_case(case, root, cap=90.0):
                 out["first_difference_at"] = sftpread.first_diff(dest, data)
                 out["dest_is_prefix"] = data.startswith(dest)
     out.update(reads=script.reads, writes=script.writes, callback_calls=len(cb_calls),
+               fault_status_examined=bool(fault) and fault[0] in ("read", "write") and fault[2] in seen_codes,
                fault_delivered=bool(fault) and _delivered(script, fault))
     try:
         b.close()
